@@ -163,9 +163,9 @@ Fixpoint c05_hold (c : scfg) (past : list lev) (h : list round) : bool :=
          match o_reqip (pi_opt i) with
          | Some x =>
            let p := pid c (pi_msg i) (pi_opt i) in
-           (* the latest event for this client is an OFFER of x whose hold covers this arrival *)
+           (* the latest event for this client is an OFFER of x and this arrival lies within the hold counted from its transmission *)
            match filter (fun b => bytes_eqb (le_pid b) p) (rev past) with
-           | b :: _ => if (le_typ b =? 2) && (le_ip b =? x) && (le_sent b <=? r_t r)%Z && (r_t r <=? le_arr b + hold_ns)%Z &&
+           | b :: _ => if (le_typ b =? 2) && (le_ip b =? x) && (le_sent b <=? r_t r)%Z && (r_t r <=? le_sent b + hold_ns)%Z &&
                           negb (foreign_answer r (d_chaddr (pi_msg i)) x)
                        then existsb (fun e => (le_typ e =? 5) && (le_ip e =? x)) evs else true
            | [] => true end
